@@ -319,7 +319,7 @@ def _symbolic_for(interp, s, frame, state, space):
     if len(normal) != 1:
         if not normal:
             raise EngineError("loop body has no normal path")
-        return _summarise_multi(interp, s, frame, st, lo, hi, item_fn, normal, i, scal_h, pre_env, pre_heap, where)
+        normal = [_merge_paths(normal, where)]
     fr1, st1 = normal[0]
     touched = sorted({sid for sid in st1.heap if sid in pre_heap and st1.heap[sid] is not pre_heap[sid]})
     heap_h = dict(pre_heap)
@@ -347,7 +347,9 @@ def _symbolic_for(interp, s, frame, state, space):
         outs = run_body(env_h, heap_h, i, [])
         normal = [(fr, st2) for fr, st2, out in outs if out[0] in ("normal", "continue")]
         if len(normal) != 1:
-            return _summarise_multi(interp, s, frame, st, lo, hi, item_fn, normal, i, scal_h, pre_env, pre_heap, where)
+            if not normal:
+                raise EngineError("loop body has no normal path")
+            normal = [_merge_paths(normal, where)]
         fr1, st1 = normal[0]
     # collect side obligations of the body run: they were recorded in st.side with pc including i-range → fine.
     iz = i.t
@@ -402,7 +404,9 @@ def _symbolic_for(interp, s, frame, state, space):
         elif out[0] not in ("normal", "continue"):
             raise EngineError("loop body leaves the loop under the summary")
     if len(normal2) != 1:
-        raise EngineError("loop step check: body forks under the summary")
+        if not normal2:
+            raise EngineError("loop step check: no normal path")
+        normal2 = [_merge_paths(normal2, where)]
     fr2, st2 = normal2[0]
     env_n, heap_n = state_at(A.simp(sv.add(i2, 1)))
     goals = []
@@ -641,6 +645,31 @@ def _solve_writer(cond, iz, idz):
         else:
             conj.append(c)
     flat(z3.simplify(cond))
+    inverses = getattr(cur(), "inverses", None) or {}
+    for n, c in enumerate(conj):
+        if z3.is_eq(c) and inverses:
+            a, b = c.children()
+            if not z3.is_int(a):
+                continue
+            d = z3.simplify(a - b)
+            for fname, finv in inverses.items():
+                F = None
+                for app in _apps_of(d, fname):
+                    if app.num_args() >= 1 and app.arg(app.num_args() - 1).eq(iz):
+                        F = app
+                        break
+                if F is None:
+                    continue
+                for sign in (1, -1):
+                    rest = z3.simplify(d - sign * F)
+                    if _mentions(rest, iz):
+                        continue
+                    v = z3.simplify(-rest) if sign == 1 else z3.simplify(rest)      # F(.., i) == v
+                    w = finv(*[F.arg(k) for k in range(F.num_args() - 1)], v)
+                    others = conj[:n] + conj[n + 1:]
+                    residual = z3.And(*(others + [z3.substitute(F, (iz, w)) == v]))
+                    residual = z3.substitute(residual, (iz, w))
+                    return w, residual
     for n, c in enumerate(conj):
         if z3.is_eq(c):
             a, b = c.children()
@@ -656,6 +685,19 @@ def _solve_writer(cond, iz, idz):
                         residual = z3.substitute(residual, (iz, w))
                         return w, residual
     return None
+
+
+def _apps_of(t, fname):
+    out, seen, stack = [], set(), [t]
+    while stack:
+        e = stack.pop()
+        if e.get_id() in seen:
+            continue
+        seen.add(e.get_id())
+        if z3.is_app(e) and e.decl().kind() == z3.Z3_OP_UNINTERPRETED and e.decl().name() == fname:
+            out.append(e)
+        stack.extend(e.children())
+    return out
 
 
 def _mentions(t, c):
@@ -707,13 +749,99 @@ def _summarise_cell(interp, sid, pre_cell, heap_h, st1, iz, lo, hi, hv_consts, h
                     return Content("list", A.SeqVal(length, fn), pre_cell.meta)
                 return at
         raise EngineError("list mutated in a symbolic loop in an unsupported way")
+    if pre_cell.kind == "file":
+        return _summarise_file_cell(pre_cell, post_cell, iz, lo, hi, hv_consts, hv_funcs)
     if pre_cell.kind == "df":
         from .pandas_model import summarise_df_cell
         return summarise_df_cell(interp, sid, pre_cell, post_cell, heap_h, st1, iz, lo, hi, hv_consts, hv_funcs)
     raise EngineError(f"heap cell of kind {pre_cell.kind} modified in a symbolic loop")
 
 
+def _summarise_file_cell(pre_cell, post_cell, iz, lo, hi, hv_consts, hv_funcs):
+    """a file handle used inside a symbolic loop.
+    reading: every iteration advances the position by a constant number of lines -> pos(k) = pos0 + c (k - lo);
+    writing: every iteration appends items -> one Block(var, lo, k, items(var)) after the pre-existing items."""
+    from .text import Block
+    a, b = pre_cell.data, post_cell.data
+    if a["mode"] == "r":
+        delta = A.simp(sv.sub(b["pos"], a["pos"]))
+        if not is_conc(delta):
+            raise EngineError("file position advances by a non-constant number of lines per iteration")
+
+        def at(k):
+            d = dict(a)
+            d["pos"] = A.simp(sv.add(a["pos"], sv.mul(delta, sv.sub(k, lo))))
+            return Content("file", d, pre_cell.meta)
+        return at
+    pre_items, post_items = tuple(a["items"]), tuple(b["items"])
+    if post_items[:len(pre_items)] != pre_items:
+        raise EngineError("file items rewritten inside a loop")
+    added = post_items[len(pre_items):]
+    for t in _item_terms(added):
+        if _contains_any(t, hv_consts, hv_funcs):
+            raise EngineError("text written inside a loop depends on loop-carried state — needs a written summary")
+
+    def at(k):
+        d = dict(a)
+        if is_conc(k) and is_conc(lo) and k == lo:
+            d["items"] = pre_items
+        else:
+            d["items"] = pre_items + (Block(iz, lo, k, added),)
+        return Content("file", d, pre_cell.meta)
+    return at
+
+
+def _item_terms(items):
+    from .text import Block, Rows, Run, Text, Tok
+    out = []
+    for x in items:
+        if isinstance(x, Text):
+            out.extend(_item_terms(x.pieces))
+        elif isinstance(x, Tok):
+            out.extend(_terms_of(x.value))
+        elif isinstance(x, Run):
+            out.extend(_terms_of(x.n) + _terms_of(x.fn(sv.fresh_int("rt"))))
+        elif isinstance(x, Rows):
+            out.extend(_terms_of(x.n) + _terms_of(x.width) + _terms_of(x.fn(sv.fresh_int("ri"), sv.fresh_int("rc"))))
+        elif isinstance(x, Block):
+            out.extend(_terms_of(x.lo) + _terms_of(x.hi) + _item_terms(x.items))
+    return out
+
+
+def _file_cells_equal(a, b):
+    from .text import Block
+    da, db = a.data, b.data
+    if da["mode"] != db["mode"]:
+        return [z3.BoolVal(False)]
+    if da["mode"] == "r":
+        return _eq_goals(da["pos"], db["pos"])
+    ia, ib = tuple(da["items"]), tuple(db["items"])
+    # step shape: pre + [Block(lo, i)] + added(i)  ==  pre + [Block(lo, i+1)]   holds by the definition of Block
+    def norm_items(items):
+        out = []
+        for x in items:
+            out.append(x)
+        return out
+    na, nb = norm_items(ia), norm_items(ib)
+    if len(nb) >= 1 and isinstance(nb[-1], Block):
+        blk = nb[-1]
+        m = len(blk.items)
+        pre = nb[:-1]
+        # a = pre + [Block(lo, hi-1)] + items(hi-1)   or  a = pre + items(lo) when hi-1 == lo
+        if len(na) == len(pre) + 1 + m and na[:len(pre)] == pre and isinstance(na[len(pre)], Block):
+            ba = na[len(pre)]
+            if ba.var.eq(blk.var) and ba.items == blk.items:
+                return _eq_goals(ba.lo, blk.lo) + _eq_goals(A.simp(sv.add(ba.hi, 1)), blk.hi)
+        if len(na) == len(pre) + m and na[:len(pre)] == pre:
+            return _eq_goals(A.simp(sv.add(blk.lo, 1)), blk.hi)
+    if len(na) == len(nb) and all((x is y) or (x == y) for x, y in zip(na, nb)):
+        return []
+    return [z3.BoolVal(False)]
+
+
 def _cell_eq_goals(a, b):
+    if a.kind == "file" and b.kind == "file":
+        return _file_cells_equal(a, b)
     if a.kind == "list" and b.kind == "list":
         ca, cb = a.data, b.data
         la = ca.length if isinstance(ca, A.SeqVal) else len(ca)
@@ -769,6 +897,88 @@ def _rebind_obj(v, st1, st, iz, last):
     if sv.is_scalar(norm(v)):
         return _subst_val(v, [(iz, last)])
     return v
+
+
+def _merge_paths(paths, where):
+    """merge the normal end states of a forked loop body into one state: values become ite-terms over the path guards.
+    The guards are the parts of the path conditions after the longest common prefix; the paths come from branch splits,
+    so their guards are mutually exclusive and jointly exhaustive under the common prefix."""
+    pcs = [st.pc for _, st in paths]
+    n_common = 0
+    while all(len(pc) > n_common for pc in pcs) and all(pc[n_common].eq(pcs[0][n_common]) for pc in pcs):
+        n_common += 1
+    guards = []
+    for pc in pcs:
+        extra = pc[n_common:]
+        guards.append(sv.wrap(z3.And(*extra)) if len(extra) > 1 else (sv.wrap(extra[0]) if extra else True))
+
+    def merge_scalar(vals):
+        out = vals[-1]
+        for g, v in zip(reversed(guards[:-1]), reversed(vals[:-1])):
+            out = ite(g, v, out)
+        return out
+    fr0, st0 = paths[0]
+    stm = st0.fork()
+    stm.pc = list(pcs[0][:n_common])
+    stm.decisions = {k: v for k, v in st0.decisions.items() if all(k in st.decisions and st.decisions[k][0] == v[0] for _, st in paths)}
+    stm.events = [e for _, st in paths for e in st.events]
+    stm.trace = list(st0.trace)
+    for _, st in paths[1:]:
+        if len(st.trace) != len(st0.trace):
+            raise EngineError(f"loop body at {where}: branches differ in their write/trace events")
+    # heap
+    sids = set()
+    for _, st in paths:
+        sids |= set(st.heap)
+    for sid in sids:
+        cells = [st.heap.get(sid) for _, st in paths]
+        if any(c is None for c in cells):
+            c = next(c for c in cells if c is not None)
+            stm.heap[sid] = c
+            continue
+        if all(c is cells[0] for c in cells):
+            stm.heap[sid] = cells[0]
+            continue
+        kind = cells[0].kind
+        if kind == "arr" and all(c.kind == "arr" for c in cells):
+            fns = [c.data for c in cells]
+
+            def fn(idx, fns=fns):
+                return merge_scalar([f(idx) for f in fns])
+            stm.heap[sid] = Content("arr", A._memo(fn), cells[0].meta)
+        elif kind == "file" and all(c.data.get("mode") == "r" for c in cells):
+            d = dict(cells[0].data)
+            d["pos"] = merge_scalar([c.data["pos"] for c in cells])
+            stm.heap[sid] = Content("file", d, cells[0].meta)
+        else:
+            raise EngineError(f"loop body at {where}: branches modify a {kind} cell differently — needs a written summary")
+    # environment
+    frm = fr0.clone()
+    names = set()
+    for fr, _ in paths:
+        names |= set(fr.env)
+    for nme in names:
+        vals = [fr.env.get(nme, _MISSING) for fr, _ in paths]
+        if any(v is _MISSING for v in vals):
+            frm.env.pop(nme, None)     # defined on some branches only: not live after the body (checked when read)
+            continue
+        if all(v is vals[0] for v in vals):
+            continue
+        nv = [norm(v) if sv.is_scalar(norm(v)) else v for v in vals]
+        if all(sv.is_scalar(v) for v in nv):
+            frm.env[nme] = merge_scalar(nv)
+        elif all(isinstance(v, A.Arr) for v in nv) and all(v.sid == nv[0].sid for v in nv):
+            frm.env[nme] = nv[0]
+        elif all(isinstance(v, A.Arr) for v in nv) and all(A.dim_eq_syntactic(len(v.shape), len(nv[0].shape)) for v in nv):
+            readers = []
+            for (fr, st), v in zip(paths, nv):
+                with use_state(st):
+                    readers.append(v.reader())
+            with use_state(stm):
+                frm.env[nme] = A.new_arr(nv[0].shape, lambda idx, readers=readers: merge_scalar([r(idx) for r in readers]), nv[0].dtype)
+        else:
+            frm.env.pop(nme, None)
+    return frm, stm
 
 
 def _summarise_multi(interp, s, frame, st, lo, hi, item_fn, normal, i, scal_h, pre_env, pre_heap, where):
